@@ -89,6 +89,16 @@ impl FunBuilder {
   pub fn capture_count(&self) -> u8 {
     self.capture_count
   }
+
+  /// How many parameters does the caller place on the stack
+  #[inline]
+  pub fn parameter_count(&self) -> u8 {
+    match self.arity {
+      Arity::Default(req, _) => req,
+      Arity::Fixed(req) => req,
+      Arity::Variadic(req) => req,
+    }
+  }
 }
 
 impl FunBuilder {
